@@ -175,6 +175,43 @@ func runC20(c *Ctx) {
 		if fn == nil {
 			continue
 		}
+		entry := fn // the function that holds the key-already-present branch: Set itself, or a helper it hands the new entry to
+		var site *ssa.Call
+		hasLookup := func(f *ssa.Function) bool {
+			r := false
+			eachInstr(f, func(_ *ssa.BasicBlock, _ int, ins ssa.Instruction) {
+				if lk, ok := ins.(*ssa.Lookup); ok && lk.CommaOk && loadedFromField(lk.X, "LRUCache", "items") {
+					r = true
+				}
+			})
+			return r
+		}
+		if !hasLookup(fn) {
+			eachInstr(fn, func(_ *ssa.BasicBlock, _ int, ins ssa.Instruction) {
+				if cl, ok := ins.(*ssa.Call); ok && site == nil {
+					if sf := staticFn(cl); sf != nil && sf.Pkg == fn.Pkg && hasLookup(sf) {
+						site = cl
+					}
+				}
+			})
+			if site != nil {
+				fn = staticFn(site)
+			}
+		}
+		freshEntry := func(v ssa.Value) bool {
+			al, ok := v.(*ssa.Alloc)
+			if !ok || !typeIs(al.Type(), modPath+"/pkg/cache", "Entry") {
+				return false
+			}
+			for _, r := range refs(al) {
+				if fa, ok := r.(*ssa.FieldAddr); ok {
+					if _, f2, _ := fieldOf(fa); f2 == "ExpiresAt" {
+						return true
+					}
+				}
+			}
+			return false
+		}
 		var oks []ssa.Value
 		eachInstr(fn, func(_ *ssa.BasicBlock, _ int, ins ssa.Instruction) {
 			if lk, ok := ins.(*ssa.Lookup); ok && lk.CommaOk && loadedFromField(lk.X, "LRUCache", "items") {
@@ -192,14 +229,14 @@ func runC20(c *Ctx) {
 			if nt, f, ok := fieldOf(st.Addr); ok && nt != nil && nt.Obj().Name() == "Element" && f == "Value" {
 				// value is a fresh Entry of this call with an ExpiresAt store
 				return derivesFrom(st.Val, func(v ssa.Value) bool {
-					al, ok := v.(*ssa.Alloc)
-					if !ok || !typeIs(al.Type(), modPath+"/pkg/cache", "Entry") {
-						return false
+					if freshEntry(v) {
+						return true
 					}
-					for _, r := range refs(al) {
-						if fa, ok := r.(*ssa.FieldAddr); ok {
-							if _, f2, _ := fieldOf(fa); f2 == "ExpiresAt" {
-								return true
+					// in a helper: the entry it was handed, which the caller built for this call
+					if p, ok := v.(*ssa.Parameter); ok && site != nil {
+						for i, fp := range fn.Params {
+							if fp == p && i < len(site.Call.Args) {
+								return derivesFrom(site.Call.Args[i], freshEntry)
 							}
 						}
 					}
@@ -224,6 +261,9 @@ func runC20(c *Ctx) {
 						}
 						q2 := &pathQuery{fn: fn, stop: bumps, target: func(x ssa.Instruction) bool {
 							r, ok := x.(*ssa.Return)
+							if ok && fn != entry { // the helper's report that it replaced the entry
+								return len(r.Results) == 0 || !isConstBool(retVals(r)[0], false)
+							}
 							return ok && (len(r.Results) == 0 || isNilConst(stripConv(retVals(r)[len(r.Results)-1])))
 						}}
 						hit2, path2 := q2.from(s, 0)
@@ -233,7 +273,7 @@ func runC20(c *Ctx) {
 			}
 		}
 		if n == 0 {
-			c.ob("C20-R6", cachePkg+"."+name+"#overwrite-branch", fn.Pos(), false, "no key-already-present branch found")
+			c.ob("C20-R6", cachePkg+"."+name+"#overwrite-branch", entry.Pos(), false, "no key-already-present branch found")
 		}
 	}
 
